@@ -2,6 +2,7 @@ package c05
 
 import (
 	"fmt"
+	"os"
 	"regexp"
 	"sort"
 	"strings"
@@ -51,12 +52,14 @@ type ModelRun struct {
 type Models struct {
 	ctx   *core.Ctx
 	wg    sync.WaitGroup
+	devWg sync.WaitGroup
 	mu    sync.Mutex
 	Runs  []*ModelRun
 	Paths []ModelPath
 	Edges map[string]struct{} // mode-less fn|class|fn'
 	pathC chan struct{}
 	sem   chan struct{}
+	which string
 }
 
 func lexerCfg(dev string, keepHist, ghost bool, body string) string {
@@ -108,8 +111,15 @@ func lastHist(trace string) []string {
 
 func (m *Models) job(label, module, cfg, expect string, workers int, after func(*core.TLCResult, *ModelRun)) {
 	m.wg.Add(1)
+	isDev := strings.Contains(label, "/dev/")
+	if isDev {
+		m.devWg.Add(1)
+	}
 	go func() {
 		defer m.wg.Done()
+		if isDev {
+			defer m.devWg.Done()
+		}
 		if label != "SoyLexer/paths" { // the input families wait for the paths: no queueing
 			m.sem <- struct{}{}
 			defer func() { <-m.sem }()
@@ -121,7 +131,6 @@ func (m *Models) job(label, module, cfg, expect string, workers int, after func(
 			// what core.parseTLC knows; it is a verdict of TLC, not tool trouble
 			err = nil
 			res.Violated = "temporal"
-			m.ctx.ClearToolErrorSuffix("Temporal property")
 		}
 		if err != nil {
 			run.Err = err
@@ -145,10 +154,14 @@ func (m *Models) job(label, module, cfg, expect string, workers int, after func(
 // StartModels launches the TLC jobs of SoyLexer and SoyLexParse. which selects
 // the parts: "lexer", "parse-c05", "parse-c18", "parse-c19" (comma separated).
 func StartModels(ctx *core.Ctx, which string) *Models {
-	m := &Models{ctx: ctx, Edges: map[string]struct{}{}, pathC: make(chan struct{}), sem: make(chan struct{}, 6)}
-	has := func(s string) bool { return strings.Contains(which, s) }
-	thorough := ctx.Thorough()
-	if has("lexer") {
+	m := &Models{ctx: ctx, Edges: map[string]struct{}{}, pathC: make(chan struct{}), sem: make(chan struct{}, 6), which: which}
+	if os.Getenv("VERIF_DEV_NOTLC") != "" {
+		// development aid (timing the real-code part alone): never a clean exit
+		ctx.ToolError("TLC runs skipped (VERIF_DEV_NOTLC)")
+		which = ""
+	}
+	m.which = which
+	if strings.Contains(which, "lexer") {
 		// the path enumeration first: the input family (a) waits for it
 		m.job("SoyLexer/paths", "SoyLexer", lexerCfg("", true, false, lexPaths), "", 1, func(res *core.TLCResult, run *ModelRun) {
 			for _, p := range res.Printed {
@@ -163,6 +176,19 @@ func StartModels(ctx *core.Ctx, which string) *Models {
 			}
 			close(m.pathC)
 		})
+	} else {
+		close(m.pathC)
+	}
+	return m
+}
+
+// StartRest launches every job but the path enumeration (which StartModels
+// started); callers do it when the CPU-heavy part of the real-code runs is over.
+func (m *Models) StartRest() {
+	ctx, which := m.ctx, m.which
+	has := func(s string) bool { return strings.Contains(which, s) }
+	thorough := ctx.Thorough()
+	if has("lexer") {
 		m.job("SoyLexer/reference-safety", "SoyLexer", lexerCfg("", false, true, lexSafety), "", 4, nil)
 		m.job("SoyLexer/reference-liveness", "SoyLexer", lexerCfg("", false, false, lexLive), "", 4, nil)
 		m.job("SoyLexer/edges", "SoyLexer", lexerCfg("", false, true, lexEdges), "", 1, func(res *core.TLCResult, run *ModelRun) {
@@ -189,8 +215,6 @@ func StartModels(ctx *core.Ctx, which string) *Models {
 				m.job("SoyLexer/dev-liveness/"+d.Name, "SoyLexer", lexerCfg(d.Name, false, false, lexDevLive), "temporal", 4, nil)
 			}
 		}
-	} else {
-		close(m.pathC)
 	}
 	depth := ctx.Pick(3, 4)
 	if has("parse-") {
@@ -220,7 +244,6 @@ func StartModels(ctx *core.Ctx, which string) *Models {
 			m.job("SoyLexParse/dev-liveness/"+n, "SoyLexParse", parseCfg(n, 3, 1, false, parseLive), "temporal", 4, nil)
 		}
 	}
-	return m
 }
 
 // WaitPaths blocks until the SoyLexer path enumeration is available.
@@ -380,9 +403,13 @@ func ReplayFromParseHist(run *ModelRun) []Input {
 
 // ReplayInputs gathers the replay inputs of all deviation runs that are done.
 func (m *Models) ReplayInputs() []Input {
-	m.wg.Wait()
+	m.devWg.Wait()
 	var out []Input
-	for _, r := range m.Runs {
+	m.mu.Lock()
+	runs := append([]*ModelRun(nil), m.Runs...)
+	m.mu.Unlock()
+	sort.Slice(runs, func(i, j int) bool { return runs[i].Label < runs[j].Label })
+	for _, r := range runs {
 		if r.Expect == "" || r.Violated == "" {
 			continue
 		}
